@@ -141,7 +141,7 @@ func escapeQuote(s string) string {
 	end := len(s)
 	for i := 0; i < end; i++ {
 		c := raw[i]
-		if c == '"' && (i > 0 && s[i-1] != '\\') {
+		if c == '"' && (i > 0 && raw[i-1] != '\\') {
 			raw = byteInsertAt(raw, '\\', i)
 			i++
 			end++
